@@ -26,5 +26,9 @@ func (c *Chain) DeployAs(signers []neotest.Signer, ct *neotest.Contract, name st
 	mgmt := c.E.NativeHash(c.T, nativenames.Management)
 	res := c.Exec(c.NewTx(signers, mgmt, "deploy", nefb, mb, data))[0]
 	require.True(c.T, res.Halt, "deployment of %s: %s", m.Name, res.Fault)
-	return state.CreateContractHash(c.Payer.ScriptHash(), ct.NEF.Checksum, m.Name)
+	h := state.CreateContractHash(c.Payer.ScriptHash(), ct.NEF.Checksum, m.Name)
+	cp := *ct
+	cp.Hash = h
+	coverTrack(ct.Manifest.Name, &cp)
+	return h
 }
